@@ -137,6 +137,35 @@ Definition walk_scalar (d : desc) (data : bytes) : option wres :=
           end)
   else None.
 
+(** the entry loop of readAsJSON, parameterised by the walker of one entry body *)
+Fixpoint wentries (kv : bytes -> wres) (k : nat) (cnt : N) (rest : bytes) (consumed : N) (acc : list ev) {struct k} : wres :=
+  if cnt =? 0 then wok acc consumed else
+  match k with
+  | O => mkw acc (Hang "readAsJSON loop")
+  | S k' =>
+    let '(s, m) := read_varuint rest in
+    if (m <=? 0)%Z then werr acc else
+    match go_drop "readAsJSON" (Z.to_N m) rest with
+    | Ok r1 =>
+      if s =? 0 then wentries kv k' (cnt - 1) r1 (consumed + Z.to_N m) acc else
+      if len r1 <? s then werr acc else
+      match go_take "readAsJSON" s r1 with
+      | Ok body =>
+        let w := kv body in
+        match w_out w with
+        | Ok used =>
+          match go_drop "readAsJSON" used r1 with
+          | Ok r2 => wentries kv k' (cnt - 1) r2 (consumed + Z.to_N m + used) (acc ++ w_ev w)
+          | r => wfail (acc ++ w_ev w) r
+          end
+        | r => mkw (acc ++ w_ev w) (match r with Ok _ => Err | x => x end)
+        end
+      | r => wfail acc r
+      end
+    | r => wfail acc r
+    end
+  end.
+
 (** readJSONObjectKV / readAsJSON, on fuel *)
 Fixpoint walk_jkv (fuel : nat) (rest : bytes) (consumed : N) (jt : N) (have : bool) (acc : list ev) {struct fuel} : wres :=
   match rest with
@@ -227,33 +256,7 @@ with walk_json (fuel : nat) (isobj : bool) (data : bytes) {struct fuel} : wres :
     | Ok rest =>
       (* for i := 0; i < int(count); i++ : a count above the int range runs no iteration *)
       let cnt := if count <? two63 then count else 0 in
-      let w := (fix entries (k : nat) (cnt : N) (rest : bytes) (consumed : N) (acc : list ev) {struct k} : wres :=
-                  if cnt =? 0 then wok acc consumed else
-                  match k with
-                  | O => mkw acc (Hang "readAsJSON loop")
-                  | S k' =>
-                    let '(s, m) := read_varuint rest in
-                    if (m <=? 0)%Z then werr acc else
-                    match go_drop "readAsJSON" (Z.to_N m) rest with
-                    | Ok r1 =>
-                      if s =? 0 then entries k' (cnt - 1) r1 (consumed + Z.to_N m) acc else
-                      if len r1 <? s then werr acc else
-                      match go_take "readAsJSON" s r1 with
-                      | Ok body =>
-                        let w := walk_jkv f body 0 0 false [] in
-                        match w_out w with
-                        | Ok used =>
-                          match go_drop "readAsJSON" used r1 with
-                          | Ok r2 => entries k' (cnt - 1) r2 (consumed + Z.to_N m + used) (acc ++ w_ev w)
-                          | r => wfail (acc ++ w_ev w) r
-                          end
-                        | r => mkw (acc ++ w_ev w) (match r with Ok _ => Err | x => x end)
-                        end
-                      | r => wfail acc r
-                      end
-                    | r => wfail acc r
-                    end
-                  end) (S (length data)) cnt rest (Z.to_N n) [] in
+      let w := wentries (fun body => walk_jkv f body 0 0 false []) (S (length data)) cnt rest (Z.to_N n) [] in
       mkw ([open_] ++ w_ev w ++ [close_]) (w_out w)
     | r => wfail [open_; close_] r
     end
